@@ -70,6 +70,8 @@ def check(case: Dict[str, Any]) -> CaseInfo:
         steps = step_rows(rows)
         nsteps = len({n for n, _ in steps})
         classes.append(f"steps={min(nsteps, 3)}")
+        if next(iter(want_it[rows[0].id])) >= 0 and any(is_device(r) and r.correlation != -1 and links(rows)[r.id] == 0 for r in rows):
+            classes.append("first_entry_inside_a_step_and_orphan_activity")
         if free & got:
             classes.append("uncorrelated_activity_kept")
         if nsteps >= 2:
@@ -96,7 +98,7 @@ def check(case: Dict[str, Any]) -> CaseInfo:
 
 @st.composite
 def c12_case(draw):
-    o = Opts(steps=[0, 1, 2, 2, 3, 3, 4], max_top=3, w_launch=6, w_sync=2, second_thread=True)
+    o = Opts(steps=[0, 1, 2, 2, 3, 3, 4], max_top=3, w_launch=6, w_sync=2, second_thread=True, lead_op=True)
     case = draw(sim_case(o, max_ranks=2))
     case["include_last"] = draw(st.sampled_from([True, False]))
     return case
